@@ -9,10 +9,10 @@ import (
 
 // procGen builds random process-language expressions and statement lists.
 type procGen struct {
-	r      *gen.Rng
-	nLoop  int
-	strVar []string
-	numVar []string
+	r       *gen.Rng
+	nLoop   int
+	strVar  []string
+	numVar  []string
 	boolVar []string
 }
 
